@@ -53,7 +53,18 @@ def check(tier, seed, replay=None):
         if rt.violated:
             raise ToolError("TopN.tla violates %s" % rt.violated)
         chk.add_tlc(rt, "TopN (IndInv, Prefix: the bounded sorter holds the first N rows of the unbounded one; N = 2, 3 keys, <= 5 rows)")
+        rl = tlc("Limiter", "Limiter.cfg", workers=1, timeout=120)
+        tlc_ok(rl, "Limiter")
+        if rl.violated:
+            raise ToolError("Limiter.tla violates %s" % rl.violated)
+        chk.add_tlc(rl, "Limiter (IndInv: the rows handed on are the arrivals S+1..S+T, Break from the T-th on; S = 2, T = 3)")
         if not quick:
+            # ... and for every S, every T and inputs of any length with the TLA+ proof system
+            pt = subprocess.run([os.path.join(ROOT, "bin", "tlaps-limiter")], stdout=subprocess.PIPE, stderr=subprocess.STDOUT, text=True)
+            chk.notes["tlaps_limiter"] = {"exit": pt.returncode, "output": pt.stdout.strip().splitlines()[-2:],
+                                          "meaning": "Limiter_proofs.tla: IndInv is an inductive invariant of the limiter for all S, T and input lengths (tlapm); a wrong limiter is refused"}
+            if pt.returncode != 0 and "not found" not in pt.stdout:
+                raise ToolError("bin/tlaps-limiter: unexpected outcome: %s" % pt.stdout[-500:])
             pa = subprocess.run([os.path.join(ROOT, "bin", "apalache-topn")], stdout=subprocess.PIPE, stderr=subprocess.STDOUT, text=True)
             chk.notes["apalache_topn"] = {"exit": pa.returncode, "output": pa.stdout.strip().splitlines()[-3:],
                                           "meaning": "IndInv is inductive for arbitrary integer keys, N in 0..8, sorter content of up to 10 rows"}
